@@ -242,7 +242,7 @@ theorem fit_measure {c : Converter Rat} (hc : c.Sound) (q : SQuantity Rat) :
   | failed _ _ => rfl
   | fitted q' u nu hu hr _ => exact hr.measure_eq hu
 
-theorem tryFraction_text (c : Converter Rat) (q : SQuantity Rat) (t : Str) (hv : q.value = .text t) :
+theorem tryFraction_text_gw (c : Converter Rat) (q : SQuantity Rat) (t : Str) (hv : q.value = .text t) :
     tryFraction c q = (q, false) := by
   unfold tryFraction
   split
@@ -252,7 +252,7 @@ theorem tryFraction_text (c : Converter Rat) (q : SQuantity Rat) (t : Str) (hv :
     · simp [hv]
 
 /-- `fit` leaves a text quantity exactly as it is -/
-theorem fit_text (c : Converter Rat) (q : SQuantity Rat) (t : Str) (hv : q.value = .text t) :
+theorem fit_text_gw (c : Converter Rat) (q : SQuantity Rat) (t : Str) (hv : q.value = .text t) :
     (fit c q).1 = q := by
   unfold fit
   cases hu : unitInfo c q with
@@ -264,7 +264,7 @@ theorem fit_text (c : Converter Rat) (q : SQuantity Rat) (t : Str) (hv : q.value
         fitFraction c q u u.system = (q, .error (.textValue t)) := by
       unfold fitFraction
       cases u.system with
-      | none => simp [tryFraction_text c q t hv]
+      | none => simp [tryFraction_text_gw c q t hv]
       | some s => simp [hv]
     simp only
     split
@@ -369,7 +369,7 @@ theorem wText_fitInvariant {c : Converter Rat} (hc : c.Sound) (t : SQuantity Rat
     FitInvariant c (wText t) := by
   intro q
   cases hv : q.value with
-  | text s => rw [fit_text c q s hv]
+  | text s => rw [fit_text_gw c q s hv]
   | number n =>
     have h1 : q.value.isText = false := by simp [hv, Value.isText]
     have h2 := fit_isText hc q
